@@ -696,30 +696,78 @@ theorem propPre_of_declOK (p : RS) (h : declOK p = true) : propPre p := by
     | none => simp [hi] at h2
     | some it => exact ⟨it, rfl, by simpa [hi] using h2⟩
 
+theorem noComp_of_declOK (p : RS) (h : declOK p = true) : hasCompP p = false := by
+  unfold declOK at h
+  simp only [Bool.and_eq_true, Bool.not_eq_true'] at h
+  exact h.1.1
+
+theorem decodePropC_of_noComp (fields : List (Str × List Str)) (k : Str) (e : Option Enc) (p : RS)
+    (h : hasCompP p = false) : decodePropC fields k e p = decodeFormProp fields k p e := by
+  cases p with
+  | mk ty n r w ml mx props req a items nt oneOf anyOf allOf =>
+    unfold hasCompP at h
+    simp only [RS.allOf, RS.anyOf, RS.oneOf, RS.nt, Bool.not_eq_false', Bool.and_eq_true, List.isEmpty_iff,
+      Option.isNone_iff_eq_none] at h
+    obtain ⟨⟨⟨h1, h2⟩, h3⟩, h4⟩ := h
+    subst h1 h2 h3 h4
+    unfold decodePropC
+    simp
+
+theorem declOKC_cases (p : RS) (h : declOKC p = true) : hasCompP p = true ∨ propPre p := by
+  cases hc : hasCompP p with
+  | true => exact Or.inl rfl
+  | false =>
+    right
+    cases p with
+    | mk ty n r w ml mx props req a items nt oneOf anyOf allOf =>
+      unfold declOKC at h
+      unfold hasCompP at hc
+      simp only [RS.allOf, RS.anyOf, RS.oneOf, RS.nt, Bool.not_eq_false'] at hc
+      simp only [hc, Bool.not_true, Bool.false_eq_true, if_false] at h
+      exact propPre_of_declOK _ h
+
+/-- one declaration (with or without composition keywords in the property schema) -/
+theorem formDecl_agree (fields : List (Str × List Str)) (k : Str) (p : RS) (e : Option Enc)
+    (hs : specDecl fields k p e ≠ none) (hwf : propWF p e) (hpre : hasCompP p = true ∨ propPre p) :
+    specDecl fields k p e = some (dropNull (decodePropC fields k e p)) := by
+  unfold specDecl at hs ⊢
+  cases hc : hasCompP p with
+  | true =>
+    simp only [if_true]
+    cases decodePropC fields k e p with
+    | none => rfl
+    | some v => cases v <;> rfl
+  | false =>
+    simp only [hc, Bool.false_eq_true, if_false] at hs ⊢
+    rw [decodePropC_of_noComp fields k e p hc]
+    rcases hpre with h | h
+    · rw [hc] at h; cases h
+    · exact formProp_agree fields k p e hs hwf h
+
 /-- the whole declaration list: outside the class FormFieldUnparsable the decoder keeps exactly what the
 fields encode -/
 theorem formProps_agree (fields : List (Str × List Str)) (encs : List (Str × Enc)) (props : List (Str × RS))
     (hu : formUnparsable fields encs props = false)
-    (hwf : encsWF encs props = true) (hpre : ∀ kp ∈ props, propPre kp.2) :
+    (hwf : encsWF encs props = true) (hpre : ∀ kp ∈ props, hasCompP kp.2 = true ∨ propPre kp.2) :
     specFormProps fields encs props = some (decodeFormProps fields encs props) := by
   induction props with
   | nil => simp [specFormProps, decodeFormProps]
   | cons x r ih =>
     obtain ⟨k, p⟩ := x
-    have hp : propPre p := hpre (k, p) (by simp)
+    have hp := hpre (k, p) (by simp)
     simp only [formUnparsable, List.any_cons, Bool.or_eq_false_iff] at hu
     simp only [encsWF, List.all_cons, Bool.and_eq_true] at hwf
     have ihr := ih hu.2 hwf.2 (fun kp hkp => hpre kp (by simp [hkp]))
-    have hs1 : specFormProp fields k p (lookup k encs) ≠ none := by
+    have hs1 : specDecl fields k p (lookup k encs) ≠ none := by
       intro h; simp [h] at hu
     have hw1 : propWF p (lookup k encs) := by
       have := hwf.1
       simp only [Bool.or_eq_true, Bool.and_eq_true, decide_eq_true_eq] at this
       exact this
-    have hag := formProp_agree fields k p (lookup k encs) hs1 hw1 hp
+    have hag := formDecl_agree fields k p (lookup k encs) hs1 hw1 hp
     unfold specFormProps decodeFormProps
     rw [hag, show specFormProps fields encs r = some (decodeFormProps fields encs r) from ihr]
-    cases hd : decodeFormProp fields k p (lookup k encs) with
+    cases hd : decodePropC fields k (lookup k encs) p with
     | none => rfl
     | some v => cases v <;> rfl
 
